@@ -492,6 +492,10 @@ func checkC13(p *Prog, r *Report) {
 	// ---- R13.6 exhaustive clean-up / migration loops ----
 	r.Rule("R13.6", "The loops that must treat every element of a collection do so: no early exit, and no path through an iteration that skips the operation (mux close and packet-connection close reach every element).", 3)
 	checkForAllLoops(p, r, "C13")
+
+	// ---- R13.7 a claimed TCP packet connection is not closed underneath its handles ------------------------
+	r.Rule("R13.7", "The provisional-lifetime timer of a TCP packet connection is armed only by the constructor and afterwards only stopped: once a handle has claimed the connection, nothing can re-arm the timer that would close it with references outstanding.", 3)
+	checkAliveTimerDiscipline(p, r)
 }
 
 // abortOnlyGuardedByAssertion: the only branch conditions dominating call are
